@@ -128,17 +128,27 @@ PREDS = {
 }
 
 
-def make_dag(calls):
+IDS_A = ["s", "t", "u", "v", "w", "x", "y", "z"]
+IDS_B = ["s_0", "s", "t_0", "t", "s_1", "u", "u_0", "v"]         # hand-written ids that look like the ones fusion makes up
+
+
+def make_dag(calls, ids=None):
     from dagrt.language import DAGCode, ExecutionPhase
     cb, _ = progs.replay_calls("p0", calls)
-    ph = ExecutionPhase(name="p0", next_phase="p0", statements=list(cb.statements))
-    return DAGCode({"p0": ph}, "p0"), list(cb.statements)
+    stmts = list(cb.statements)
+    if ids is not None and len(stmts) <= len(ids):
+        ren = {st.id: ids[k] for k, st in enumerate(stmts)}
+        stmts = [st.copy(id=ren[st.id], depends_on=frozenset(ren[d] for d in st.depends_on)) for st in stmts]
+        if ids is IDS_B:
+            stmts = stmts[::-1]             # the order in which a phase lists its statements is irrelevant
+    ph = ExecutionPhase(name="p0", next_phase="p0", statements=stmts)
+    return DAGCode({"p0": ph}, "p0"), stmts
 
 
-def fuse_case(calls_a, calls_b, predname):
+def fuse_case(calls_a, calls_b, predname, handids=False):
     from dagrt.transform import fuse_two_dags
-    da, sa = make_dag(calls_a)
-    db, sb = make_dag(calls_b)
+    da, sa = make_dag(calls_a, IDS_A if handids else None)
+    db, sb = make_dag(calls_b, IDS_B if handids else None)
     tag, fn = PREDS[predname]
     try:
         if fn is None:
@@ -216,12 +226,13 @@ def run(chk):
         for _ in range(150 if chk.quick else 3000):
             pairs.append((rng.choice(sel), rng.choice(sel), rng.choice(["default", "default", "all", "only-a"])))
     cases, meta = [], []
-    for a, b, pn in pairs:
-        fc = fuse_case(a, b, pn)
+    for k_, (a, b, pn) in enumerate(pairs):
+        fc = fuse_case(a, b, pn, handids=(k_ % 3 == 1))
         if "err" in fc:
             chk.violation("C16:fuse-raised:%s" % fc["err"].split(":")[0], "fuse_two_dags raised %s on [%s] + [%s] pred %s"
                           % (fc["err"], progs.show_prog(a), progs.show_prog(b), pn), {"a": a, "b": b, "pred": pn})
             continue
+        fc["handids"] = (k_ % 3 == 1)
         cases.append(fc)
         meta.append((a, b, pn))
     chk.stage("fuse")
@@ -239,12 +250,12 @@ def run(chk):
                             for x, _y in ren}) if clause == "AsAsked" else []
             chk.violation("C16:%s:pred=%s:%s" % (clause, pn, "+".join(kinds) or "-"),
                           "fuse_two_dags([%s], [%s], pred=%s) violates %s; renaming read off the result: %s"
-                          % (progs.show_prog(a), progs.show_prog(b), pn, clause, ren), {"a": a, "b": b, "pred": pn})
+                          % (progs.show_prog(a), progs.show_prog(b), pn, clause, ren), {"a": a, "b": b, "pred": pn, "handids": c.get("handids", False)})
     chk.stage("tlc_static")
     dyn, dmeta = [], []
     for k, c in enumerate(cases):
-        if k in bad or meta[k][2] not in ("default",):
-            continue
+        if k in bad or meta[k][2] not in ("default",) or c.get("handids"):
+            continue            # (hand-written ids list the second method backwards: list order is no reference order there)
         d = dynamic_case(c)
         if d is not None:
             dyn.append(d)
@@ -279,7 +290,7 @@ def run(chk):
 
 def replay(chk, rep):
     c = rep["case"]
-    fc = fuse_case(c["a"], c["b"], c["pred"])
+    fc = fuse_case(c["a"], c["b"], c["pred"], handids=c.get("handids", False))
     for s in fc.get("fused", []):
         print("  ", s["id"], s["deps"], s["names"])
     hit = False
